@@ -34,7 +34,7 @@ CLAIMED = {
                 note="Float text compared by value (rel 1e-6); an empty SAM optional-tags column may be written with or without a trailing tab; typed-INFO VCF tables are not generated (writing them raises, which is not silent).",
                 tech=TECH + "writer actors with restart (close/reopen-append) and EIO faults over SimFS; prefix-consistency invariant + single-write refinement oracle"),
     "C11": dict(engine="streamsim", cat="exploration", ref="§4 C11",
-                text="Seeded search where the schedule is the cut set: for datasets of n <= 8 (quick) / 10 (thorough) entries all 2^(n-1) chunkings are enumerated per sampled dataset and computation (53 computations, row sums / maxima / means and column means of values under windows of equal and unequal width, track/pileup arithmetic in 12 forms with the constant on either side, location windows by flank / window_size: mean/bincount/quantile/histogram, k-mer counts, groupby, chunk_entries/chunk_lines, streamable user functions, per-chromosome genomic pipelines evaluated with bnp.compute in single/tuple/dict form), in-memory streams and file-backed streams (read_chunks(k) over SimFS); streamed result must equal the same public function on the concatenated table. Cancel and EIO faults in ~12% of runs.",
+                text="Seeded search where the schedule is the cut set: for datasets of n <= 8 (quick) / 10 (thorough) entries all 2^(n-1) chunkings are enumerated per sampled dataset and computation (56 computations incl. mixed reductions and plain members in one compute, the axis of row-wise reductions in five spellings, a streamable function with two streams around a constant, row sums / maxima / means and column means of values under windows of equal and unequal width, track/pileup arithmetic in 12 forms with the constant on either side, location windows by flank / window_size: mean/bincount/quantile/histogram, k-mer counts, groupby, chunk_entries/chunk_lines, streamable user functions, per-chromosome genomic pipelines evaluated with bnp.compute in single/tuple/dict form), in-memory streams and file-backed streams (read_chunks(k) over SimFS); streamed result must equal the same public function on the concatenated table. Cancel and EIO faults in ~12% of runs.",
                 note="Reference = bionumpy's own in-memory result; shapes whose in-memory reference raises are counted inconclusive; histogram with data-dependent edges and ragged axis-0 means are not judged.",
                 tech=TECH + "exhaustive cut-set schedule per sampled dataset + file-level chunk sizes + cancel/EIO faults; streamed == in-memory oracle"),
     "C04": dict(engine="lazysim", cat="exploration", ref="§4 C04",
@@ -50,7 +50,7 @@ CLAIMED = {
                 note="Canonical sources only (LF, repr floats, no '.' placeholders, no extra columns) so that C04's intended lazy/eager difference cannot appear; exceptions compare as raised / not raised.",
                 tech=TECH + "lock-step twin execution of operation histories on lazy vs eager tables (step-wise equality oracle)"),
     "C20": dict(engine="lazysim", cat="exploration", ref="§4 C20",
-                text="Seeded search over operation histories on file chunks (lazy and eager, whole or chunked origin, non-canonical text: signs, scientific floats, list-valued, typed-INFO, genotype-matrix and extra columns): every operation is bracketed — the operands' observable state (length, every field value, the bytes the chunk would write) from a fresh replay of the history prefix must equal their state after the operation, and applying the operation twice must give equal results. An API actor additionally calls 58 registry functions (argument snapshots come from a twin object that is never handed to the function; arguments include row / column slices and split pieces that are still views) (number<->text conversion in signed, unsigned, decimal and scientific batches; interval arithmetic incl. intersect, count_overlap, jaccard; Genome.get_intervals(...).get_mask/get_pileup/merged/clip/extended_to_size/sorted; table sort_by/concatenate/replace/indexing/tolist; reverse complement, k-mers, minimizers, match_string, translate; encoding changes) on live objects of the run under an argument snapshot.",
+                text="Seeded search over operation histories on file chunks (lazy and eager, whole or chunked origin, non-canonical text: signs, scientific floats, list-valued, typed-INFO, genotype-matrix and extra columns): every operation is bracketed — the operands' observable state (length, every field value, the bytes the chunk would write) from a fresh replay of the history prefix must equal their state after the operation, and applying the operation twice must give equal results. An API actor additionally calls about 70 registry functions (argument snapshots come from a twin object that is never handed to the function; arguments include row / column slices and split pieces that are still views) (number<->text conversion in signed, unsigned, decimal and scientific batches; interval arithmetic incl. intersect, count_overlap, jaccard; Genome.get_intervals(...).get_mask/get_pileup/merged/clip/extended_to_size/sorted; table sort_by/concatenate/replace/indexing/tolist; reverse complement, k-mers, minimizers, match_string, translate; encoding changes) on live objects of the run under an argument snapshot.",
                 note="File-chunk clause decided by search; the registry clause is a monitor on sampled live objects, not a search over the registry's input space (stated in the evidence assumptions).",
                 tech=TECH + "snapshot bracket via fresh prefix replay around every operation of a simulated history + API actor on live objects"),
 }
